@@ -126,4 +126,39 @@ def translate_invert_pl(repo):
     if _u(app) != "s[t_ind].append(z)":
         raise Reject(f"crossing loop: {_u(app)[:60]}")
     out.append(f"Definition gen_interp (x y : list Q) (t : Q) (j : nat) : Q :=\n  let la := {la} in\n  {z}.\n")
+    out.append(_threshold_at_metric(repo))
     return "\n".join(out)
+
+
+TAM_PINNED = [
+    "if isinstance(metric, str):\n    metric = getattr(type(self), metric)",
+    "if points is None:\n    points = np.sort(np.concatenate([self.pos, self.neg]))\n    if len(points) < 2:\n"
+    "        raise ValueError('At least two values are required to set thresholds.')\n"
+    "elif isinstance(points, int):\n"
+    "    min_score = min(self.pos[0] if len(self.pos) > 0 else np.inf, self.neg[0] if len(self.neg) > 0 else np.inf)\n"
+    "    max_score = max(self.pos[-1] if len(self.pos) > 0 else -np.inf, self.neg[-1] if len(self.neg) > 0 else -np.inf)\n"
+    "    if min_score >= max_score:\n        raise ValueError('At least two values are required to set thresholds.')\n"
+    "    points = np.linspace(min_score, max_score, points, endpoint=True)",
+    "threshold = utils.invert_pl_function(x=points, y=metric(self, points), t=target)",
+    "return threshold",
+]
+
+
+def _threshold_at_metric(repo):
+    """Scores.threshold_at_metric: point selection and the call of the inversion, pinned statement by statement (the
+    model's select_points / threshold_at_metric transcribe exactly these statements); emits a marker definition only"""
+    import warnings
+    src = os.path.join(repo, "score_analysis", "scores.py")
+    with warnings.catch_warnings():
+        warnings.simplefilter("ignore", SyntaxWarning)
+        tree = ast.parse(open(src).read())
+    fn = find_function(tree, "threshold_at_metric", cls="Scores")
+    if _u(fn.args) != "self, target, metric: Union[str, Callable], points: Optional[Union[int, np.ndarray]]=None":
+        raise Reject(f"threshold_at_metric signature: {_u(fn.args)}")
+    body = [_u(st) for st in strip_doc(fn.body)]
+    if body != TAM_PINNED:
+        for i, (a, b) in enumerate(zip(body, TAM_PINNED)):
+            if a != b:
+                raise Reject(f"threshold_at_metric statement {i}: {a[:100]!r}")
+        raise Reject(f"threshold_at_metric has {len(body)} statements, expected {len(TAM_PINNED)}")
+    return "Definition gen_threshold_at_metric_pinned : bool := true.\n"
